@@ -154,6 +154,11 @@ func (s *Sched) Stamp() uint64 {
 //go:norace
 func (s *Sched) IsAborted() bool { return s.Aborted }
 
+// Abort marks the run's budget as exceeded.
+//
+//go:norace
+func (s *Sched) Abort() { s.Aborted = true }
+
 // CurTask returns the id of the running task.
 //
 //go:norace
